@@ -166,6 +166,7 @@ pub fn profile_for(prop: &str, variant: u64) -> Profile {
         }
         "C08" => {
             p.name = "returns";
+            w[K::Read as usize] = 6;
             w[K::Diverge as usize] = 20;
             w[K::Resolve as usize] = 8;
             w[K::Snapshot as usize] = 5;
@@ -320,6 +321,9 @@ pub fn make_cfg(prop: &str, run_seed: u64) -> (RunCfg, Gen) {
     }
     if prop == "C04" {
         doc.bang_ids = rng.chance(1, 8);
+    }
+    if prop == "C08" {
+        doc.root_ids = rng.chance(1, 4);
     }
     if prop == "C03" || prop == "C11" {
         doc.nasty = true;
@@ -585,7 +589,7 @@ impl Gen {
             x if x == K::Restart as usize => vec![Op::Restart { r }],
             x if x == K::FailWrites as usize => vec![Op::FailWrites { r, nth: self.rng.range(1, 3) as u32, repeat: if self.rng.chance(1, 4) { self.rng.range(2, 3) as u32 } else { 1 } }],
             x if x == K::DiskFull as usize => vec![Op::DiskFull { r, on: self.rng.chance(1, 2) }],
-            x if x == K::Read as usize => vec![Op::Read { r, what: 0 }],
+            x if x == K::Read as usize => vec![Op::Read { r, what: if self.rng.chance(1, 2) { 0 } else { 16 + self.rng.below(200) as u8 } }],
             x if x == K::Diverge as usize => {
                 if n < 2 || w.replicas[r].time_travel || w.replicas[other].time_travel {
                     vec![Op::Reload { r }]
